@@ -2,8 +2,11 @@ package main
 
 import (
 	"fmt"
+	"os"
+	"path/filepath"
 	"strings"
 	"sync"
+	"time"
 
 	"github.com/flosch/pongo2/v6"
 )
@@ -52,6 +55,14 @@ func runC20(r *run) {
 			}
 			emit(caseT{"setops", []string{filesDescr([]map[string]string{files}), strings.Join(ops, ";")}})
 		}
+		// the same histories against pongo2's own loaders on a real directory, and a set with two
+		// loaders in which a name appears in / disappears from the loader in front
+		for i := 0; i < 60; i++ {
+			emit(caseT{"realfs", []string{fmt.Sprint(i)}})
+		}
+		for i := 0; i < 24; i++ {
+			emit(caseT{"priority", []string{fmt.Sprint(i)}})
+		}
 		// concurrency: k goroutines ask for the same uncached names at once
 		nc := 60
 		if r.tier == "thorough" {
@@ -65,7 +76,168 @@ func runC20(r *run) {
 	r.finish(nil)
 }
 
+// execRealFS: load / change the file (same length, same modification time, or not) / CleanCache or
+// Debug / load again, through LocalFilesystemLoader (with and without base directory),
+// SandboxedFilesystemLoader and FSLoader: a fresh load gives the file's current content.
+func execRealFS(r *run, c caseT) {
+	var i int
+	fmt.Sscanf(c.args[0], "%d", &i)
+	dir := filepath.Join(r.outdir, fmt.Sprintf("realfs%d", i))
+	must(os.MkdirAll(filepath.Join(dir, "sub"), 0o755))
+	name := []string{"page.tpl", "sub/page.tpl", "./page.tpl"}[i%3]
+	path := filepath.Join(dir, name)
+	write := func(content string, keepTime bool) {
+		var mt time.Time
+		if fi, err := os.Stat(path); err == nil {
+			mt = fi.ModTime()
+		}
+		must(os.WriteFile(path, []byte(content), 0o644))
+		if keepTime && !mt.IsZero() {
+			must(os.Chtimes(path, mt, mt))
+		}
+	}
+	write("V1:{{ 1 }}", false)
+	var loader pongo2.TemplateLoader
+	switch (i / 3) % 4 {
+	case 0:
+		loader = pongo2.MustNewLocalFileSystemLoader(dir)
+	case 1:
+		l, err := pongo2.NewSandboxedFilesystemLoader(dir)
+		must(err)
+		loader = l
+	case 2:
+		loader = pongo2.NewFSLoader(os.DirFS(dir))
+		name = strings.TrimPrefix(name, "./")
+	default:
+		l := pongo2.MustNewLocalFileSystemLoader("")
+		must(l.SetBaseDir(dir))
+		loader = l
+	}
+	set := pongo2.NewSet("realfs", loader)
+	how := (i / 12) % 5
+	var steps []string
+	render := func() string {
+		t, err := set.FromCache(name)
+		if err != nil {
+			return "err:" + err.Error()
+		}
+		out, err := t.Execute(nil)
+		if err != nil {
+			return "xerr"
+		}
+		return out
+	}
+	steps = append(steps, render())
+	write("V2:{{ 2 }}", i%2 == 0)   // same length; the modification time is kept on even cases
+	steps = append(steps, render()) // still cached
+	want := "V1:1"
+	switch how {
+	case 0:
+		set.CleanCache(name)
+		want = "V2:2"
+	case 1:
+		set.CleanCache()
+		want = "V2:2"
+	case 2:
+		set.Debug = true
+		want = "V2:2"
+	case 3:
+		set.CleanCache("other.tpl") // another name: ours stays cached
+	case 4:
+		set.CleanCache(filepath.Join(dir, name)) // the resolved spelling of the name
+		if (i/3)%4 != 2 {
+			want = "V2:2"
+		}
+	}
+	steps = append(steps, render())
+	obs := strings.Join(steps, "|")
+	id := r.emit(c.op, c.args, "realfs:"+hx(obs))
+	r.nontrivial("realfs" + c.args[0])
+	detail := map[string]any{"loader": fmt.Sprintf("%T", loader), "name": name, "step": []string{"CleanCache(name)", "CleanCache()", "Debug", "CleanCache(other)", "CleanCache(resolved name)"}[how],
+		"same_mtime": i%2 == 0, "observed": steps, "expected_last": want}
+	if steps[0] != "V1:1" || steps[1] != "V1:1" {
+		r.reject(id, "a cached template was not served from the cache (or could not be loaded)", detail)
+		return
+	}
+	if steps[2] != want {
+		r.reject(id, "a load that must be fresh did not give the file's current content (or a cached one was dropped)", detail)
+	}
+}
+
+// execPriority: two loaders; a name served by the second one; then the first one gets the name
+// too (or loses it): after CleanCache / with Debug the first loader that has the name wins.
+func execPriority(r *run, c caseT) {
+	var i int
+	fmt.Sscanf(c.args[0], "%d", &i)
+	l0 := newMemLoader(map[string]string{"other.tpl": "o"})
+	l1 := newMemLoader(map[string]string{"page.tpl": "DEFAULT", "part.tpl": "dpart"})
+	var set *pongo2.TemplateSet
+	if i%2 == 0 {
+		set = pongo2.NewSet("prio", l0, l1)
+	} else {
+		set = pongo2.NewSet("prio", l0)
+		set.AddLoader(l1)
+	}
+	src := "page.tpl"
+	entry := func() string {
+		var t *pongo2.Template
+		var err error
+		switch (i / 2) % 3 {
+		case 0:
+			t, err = set.FromCache(src)
+		case 1:
+			t, err = set.FromFile(src)
+		default:
+			t, err = set.FromString("{% include \"page.tpl\" %}")
+		}
+		if err != nil {
+			return "err"
+		}
+		out, err := t.Execute(nil)
+		if err != nil {
+			return "xerr"
+		}
+		return out
+	}
+	var steps []string
+	steps = append(steps, entry())
+	l0.mu.Lock()
+	l0.files["page.tpl"] = "THEME"
+	l0.mu.Unlock()
+	switch (i / 6) % 4 {
+	case 0:
+		set.CleanCache("page.tpl")
+	case 1:
+		set.CleanCache()
+	case 2:
+		set.Debug = true
+	case 3:
+		set.CleanCache()
+		set.Debug = true
+	}
+	steps = append(steps, entry())
+	l0.mu.Lock()
+	delete(l0.files, "page.tpl")
+	l0.mu.Unlock()
+	set.CleanCache()
+	steps = append(steps, entry())
+	obs := strings.Join(steps, "|")
+	id := r.emit(c.op, c.args, "priority:"+hx(obs))
+	r.nontrivial("priority" + c.args[0])
+	if obs != "DEFAULT|THEME|DEFAULT" {
+		r.reject(id, "after the cache was cleaned (or with Debug) a name is not served by the first loader that has it", map[string]any{"case": i, "observed": steps, "expected": []string{"DEFAULT", "THEME", "DEFAULT"}})
+	}
+}
+
 func execC20(r *run, c caseT) {
+	if c.op == "realfs" {
+		execRealFS(r, c)
+		return
+	}
+	if c.op == "priority" {
+		execPriority(r, c)
+		return
+	}
 	if c.op == "concurrent" {
 		var k, nn int
 		fmt.Sscanf(c.args[0], "%d", &k)
